@@ -468,6 +468,10 @@ func (g *G) fnStringLit(label string) string {
 		g.L.Add("fnarg:escaped-percent-in-string")
 		return pickStr(g, []string{`"100\x25 sure"`, `"\x25d \x25s"`, `"50\u0025"`, `"\x25!v(MISSING)"`, `"a\tb\x25"`}, label+"-p")
 	}
+	if g.chance(6, label+"-empty") {
+		g.L.Add("fnarg:empty-string")
+		return `""`
+	}
 	return goStringLit(g.genTextNoPercent(label))
 }
 
